@@ -20,6 +20,6 @@ cp "$OUT/demo_break.py" "$S/clean/"; cp "$OUT/demo_break.py" "$S/mut/"
 T=$(cd "$S/mut" && /venv/bin/python -m pytest -q -p no:cacheprovider 2>&1 | tail -1)
 echo "demo clean exit=$DC  demo mutated exit=$DM  tests(mutated): $T"
 for P in "$@"; do
-  ( cd /verif && VERIF_REPO="$S/mut" ./check "$P" > "$OUT/check_$P.txt" 2>&1; echo "check $P exit=$?"; grep -E "VIOLATION|UNDECIDED|CHECKER-FAULT|KNOWN" "$OUT/check_$P.txt" | cut -c1-220 | head -6 )
+  ( cd /verif && VERIF_OUT="$OUT/run" VERIF_REPO="$S/mut" ./check "$P" > "$OUT/check_$P.txt" 2>&1; echo "check $P exit=$?"; grep -E "VIOLATION|UNDECIDED|CHECKER-FAULT|KNOWN" "$OUT/check_$P.txt" | cut -c1-220 | head -6 )
 done
 rm -rf "$S"
